@@ -81,6 +81,8 @@ def chunks(tier, seed):
         out.append({"kind": "seg", "k": 2, "thrs": t2[i:i + 3], "key": "seg2.%d" % i})
     for i, th in enumerate(t3):
         out.append({"kind": "seg", "k": 3, "thrs": [th], "key": "seg3.%d" % i})
+    for i in range(3 if tier == "quick" else 8):
+        out.append({"kind": "splitbig", "key": "splitbig%d" % i, "n": 3 if tier == "quick" else 6})
     nr = 4 if tier == "quick" else 12
     for i in range(nr):
         out.append({"kind": "segrand", "n": 120 if tier == "quick" else 600, "key": "segrand%d" % i})
@@ -99,7 +101,9 @@ def floors(tier):
                         "all_marked": 10, "single_obs": 2, "trailing_empty_piece": 1000, "via_seg": 1500,
                         "eq_threshold": 200, "nan_value": 200, "all_nan_and": 6, "all_nan_or": 6,
                         "just_above": 200, "just_below": 200, "feat1": 10, "feat2": 50, "feat3": 200,
-                        "mode_and": 150, "mode_or": 150, "and_or_differ": 100},
+                        "mode_and": 150, "mode_or": 150, "and_or_differ": 100,
+                        "less_usual_feature_names": 1000, "track_of_hundreds_of_observations": 12,
+                        "more_than_1000_marked_observations": 2},
             "distinct_nontrivial": 4000 if q else 16000}
 
 
@@ -164,13 +168,25 @@ def cases(chunk):
                         form = ["list", "scalar", "scalar_thr", "scalar_af"][(j + (mode == "OR")) % 4]
                     yield {"kind": "seg", "thr": thr, "mode": mode, "rows": rows, "form": form,
                            "prior": (j + len(thr)) % 3 == 0}
+    elif kind == "splitbig":
+        # larger scale: thousands of observations, more than a thousand of them marked
+        rng = gen.rng_for(PROP, chunk)
+        for _ in range(chunk["n"]):
+            n = rng.choice([600, 1500, 2600, 4000])
+            dens = rng.choice([0.5, 0.9, 0.05, 1.0, 0.45])
+            bits = 0
+            for i in range(n):
+                if rng.random() < dens:
+                    bits |= 1 << i
+            yield {"kind": "split", "n": n, "bits": bits, "via": rng.choice(["direct", "seg"]),
+                   "rep": rng.choice(["float", "int"]), "mode": rng.choice(["AND", "OR"])}
     elif kind == "segrand":
         rng = gen.rng_for(PROP, chunk)
         for _ in range(chunk["n"]):
             k = rng.choice([1, 2, 2, 3, 3, 3])
             thr = [rng.choice([0, 1, 35, -2.5, 0.1, 1e6, round(rng.uniform(-50, 50), 3), rng.randint(-5, 5)])
                    for _ in range(k)]
-            n = rng.randint(1, 12)
+            n = rng.randint(1, 12) if _ % 40 != 7 else rng.choice([300, 1200, 2500])
             rows = [[rng.choice(CODES + CODES + EXTRA_CODES) for _ in range(k)] for _ in range(n)]
             fr = [[round(rng.random(), 6) for _ in range(k)] for _ in range(n)]
             yield {"kind": "seg", "thr": thr, "mode": rng.choice(["AND", "OR"]), "rows": rows, "frac": fr,
@@ -253,9 +269,19 @@ def _snap_diff(a, b):
 
 
 # --------------------------------------------------------------------------
+# less usual but legal feature names: upper-case spellings of the virtual names (x, y, z, t, idx), names with digits,
+# blanks, one character, prefixes of one another
+MARKER_NAMES = ["m", "Y", "Z", "X", "Idx", "T", "M2", "mark 1", "#mark", "m"]
+TESTED_NAMES = [["f0", "f1", "f2"], ["T", "Z", "X"], ["temp", "t2", "T"], ["v", "v1", "v12"], ["Y", "y2", "Idx"]]
+
+
 def _run_split(case, ctx):
     from tracklib.algo.segmentation import split, segmentation
     n, bits, via = case["n"], case["bits"], case["via"]
+    MK = MARKER_NAMES[(bits + n) % len(MARKER_NAMES)] if n >= 3 else "m"
+    VN = TESTED_NAMES[(bits // 3 + n) % len(TESTED_NAMES)][0] if n >= 3 else "v"
+    if VN == MK:
+        VN = "v"
     markers = [(bits >> i) & 1 for i in range(n)]
     sig = ("split", n, bits, via)
     cls = []
@@ -273,6 +299,12 @@ def _run_split(case, ctx):
         if all(markers):
             cls.append("all_marked")
     nontrivial = any(markers)
+    if MK != "m":
+        cls.append("less_usual_feature_names")
+    if n > 200:
+        cls.append("track_of_hundreds_of_observations")
+    if sum(markers) > 1000:
+        cls.append("more_than_1000_marked_observations")
 
     tr = gen.make_track(_points(n), _times(n))
     tr.uid = "src"
@@ -282,26 +314,26 @@ def _run_split(case, ctx):
         # per-observation access to another feature); the valid requests below follow on the same track object
         M.call(lambda: tr["id", n - 1])
         if via == "direct":
-            M.call(split, tr, "m")
+            M.call(split, tr, MK)
         else:
-            M.call(segmentation, tr, "v", "m_rejected", 1.5, _mode_const(case.get("mode", "AND")))
+            M.call(segmentation, tr, VN, "m_rejected", 1.5, _mode_const(case.get("mode", "AND")))
         ctx.count("rejected_request_before_valid_one")
     if via == "direct":
         one, zero = (1.0, 0.0) if case.get("rep") == "float" else (1, 0)
-        tr.createAnalyticalFeature("m", [one if m else zero for m in markers])
+        tr.createAnalyticalFeature(MK, [one if m else zero for m in markers])
     else:
         cls.append("via_seg")
         # marked observations exceed the threshold 1.5, the others equal it or lie below
-        tr.createAnalyticalFeature("v", [2.0 if m else (1.5 if i % 2 else 1.0) for i, m in enumerate(markers)])
-        r = M.call(segmentation, tr, "v", "m", 1.5, _mode_const(case.get("mode", "AND")))
+        tr.createAnalyticalFeature(VN, [2.0 if m else (1.5 if i % 2 else 1.0) for i, m in enumerate(markers)])
+        r = M.call(segmentation, tr, VN, MK, 1.5, _mode_const(case.get("mode", "AND")))
         ctx.monitor("seg.marker_vs_threshold", n)
         if M.is_raised(r):
             return violated({"what": "segmentation() raised on a one-feature track", "markers_wanted": markers,
                              "raised": r}, sig, nontrivial, cls)
-        got = tr.getAnalyticalFeature("m")
+        got = tr.getAnalyticalFeature(MK)
         if not _same([int(g) if g in (0, 1) else g for g in got], markers):
             return violated({"what": "segmentation() marker differs from 'value > threshold'",
-                             "values": tr.getAnalyticalFeature("v"), "threshold": 1.5, "mode": case.get("mode"),
+                             "values": tr.getAnalyticalFeature(VN), "threshold": 1.5, "mode": case.get("mode"),
                              "got": got, "expected": markers}, sig, nontrivial, cls)
     if (n + sum(markers)) % 4 == 1:
         tr, _how = gen.derive(tr, (n, markers, via), allow=gen.DERIVE_HOWS + ["hidden_slots", "hidden_slots"])
@@ -312,7 +344,7 @@ def _run_split(case, ctx):
     if len(index_of) != n:
         raise M.HarnessError("timestamps are not unique")
 
-    coll = M.call(split, tr, "m")
+    coll = M.call(split, tr, MK)
     if M.is_raised(coll):
         return violated({"what": "split() raised", "n": n, "markers": markers, "raised": coll}, sig, nontrivial, cls)
 
@@ -399,7 +431,15 @@ def _run_seg(case, ctx):
     nontrivial = (0 in expected) and (1 in expected)
 
     tr = gen.make_track(_points(n), _times(n))
-    names = ["f%d" % f for f in range(k)]
+    pick = (n + k + sum(expected)) % 7
+    names = list(TESTED_NAMES[pick % len(TESTED_NAMES)][:k]) if pick < 5 else ["f%d" % f for f in range(k)]
+    MK = MARKER_NAMES[(n + 2 * k + sum(expected)) % len(MARKER_NAMES)]
+    if MK in names:
+        MK = "m"
+    if MK != "m" or names[0] != "f0":
+        cls.append("less_usual_feature_names")
+    if n > 200:
+        cls.append("track_of_hundreds_of_observations")
     afs, thrs = list(names), list(thr)
     if form in ("scalar", "scalar_af"):
         afs = names[0]
@@ -417,15 +457,15 @@ def _run_seg(case, ctx):
         tr, _how = gen.derive(tr, (vals, thr, mode), allow=gen.DERIVE_HOWS + ["hidden_slots", "hidden_slots"])
     if case.get("prior"):
         # history: the output feature already exists, filled by the other mode
-        r0 = M.call(segmentation, tr, afs, "m", thrs, _mode_const("OR" if mode == "AND" else "AND"))
+        r0 = M.call(segmentation, tr, afs, MK, thrs, _mode_const("OR" if mode == "AND" else "AND"))
         if M.is_raised(r0):
             return violated({"what": "segmentation() raised", "thresholds": thr, "mode": "other", "values": vals,
                              "raised": r0}, sig, nontrivial, cls)
-    r = M.call(segmentation, tr, afs, "m", thrs, _mode_const(mode))
+    r = M.call(segmentation, tr, afs, MK, thrs, _mode_const(mode))
     if M.is_raised(r):
         return violated({"what": "segmentation() raised", "thresholds": thr, "mode": mode, "values": vals,
                          "raised": r}, sig, nontrivial, cls)
-    got = M.call(tr.getAnalyticalFeature, "m")
+    got = M.call(tr.getAnalyticalFeature, MK)
     if M.is_raised(got) or len(got) != n:
         return violated({"what": "marker feature missing or of the wrong size after segmentation()", "got": got},
                         sig, nontrivial, cls)
